@@ -1,1 +1,40 @@
 //! verification hook (cfg pendulum_project_ntpd_rs_verif only)
+
+// --- BEGIN wsD C20 (rate limiter adapters)
+pub mod ratelimit {
+    //! thin adapter around the private `TimestampedCache<IpAddr>` and the server's cache field
+    use super::super::{Server, TimestampedCache};
+    use std::net::IpAddr;
+    use std::time::{Duration, Instant};
+
+    pub struct Cache(TimestampedCache<IpAddr>);
+    impl Cache {
+        pub fn new(length: usize) -> Self {
+            Cache(TimestampedCache::new(length))
+        }
+        pub fn len(&self) -> usize {
+            self.0.elements.len()
+        }
+        /// slot used for `ip` (None when the cache has no slots)
+        pub fn index(&self, ip: &IpAddr) -> Option<usize> {
+            if self.0.elements.is_empty() { None } else { Some(self.0.index(ip)) }
+        }
+        pub fn is_allowed(&mut self, ip: IpAddr, now: Instant, cutoff: Duration) -> bool {
+            self.0.is_allowed(ip, now, cutoff)
+        }
+        pub fn slot(&self, i: usize) -> Option<(IpAddr, Instant)> {
+            self.0.elements[i]
+        }
+    }
+
+    pub fn server_cache_len<C>(s: &Server<C>) -> usize {
+        s.client_cache.elements.len()
+    }
+    pub fn server_cache_index<C>(s: &Server<C>, ip: &IpAddr) -> Option<usize> {
+        if s.client_cache.elements.is_empty() { None } else { Some(s.client_cache.index(ip)) }
+    }
+    pub fn server_cache_slot<C>(s: &Server<C>, i: usize) -> Option<IpAddr> {
+        s.client_cache.elements[i].map(|(a, _)| a)
+    }
+}
+// --- END wsD C20
